@@ -409,6 +409,20 @@ func checkC09(c *core.Ctx) {
 		c.Nontrivial(fmt.Sprintf("dict|%s|%v|%d", kind, used, i))
 	})
 
+	// chord describe targets: every shape of one-token and few-token texts (the target is parsed as chord text)
+	targets := []string{"R", "R[1]", "1", "", " ", "C D", "C[1]", "C[1] D[1]", "/", "_", "{", "}", "C/", "C/G", "Cm7/G", "1m7", "♯", ";c", ";c\nR", ";c\nC", "C;x", "C_", "C_7", "C__7", "Cm7[", "Cm7]", "[1]", "R R", "Cb", "C♭m", "B#dim7", "Cm7 ", "\tCm7", "C{a=b}", "C=", "C,", "0", "C0", "c", "H7", strings.Repeat("C", 300), "C" + strings.Repeat("m", 5000)}
+	c.Stream("targets", len(targets)*2, func(i int, r *rand.Rand) {
+		t := targets[i%len(targets)]
+		args := []string{"info", "chord", "describe", "-t", t}
+		if i >= len(targets) {
+			args = append(args, "-s")
+		}
+		res := c.Crd.Run(runner.Opt{Stdin: []byte{}}, args...)
+		if judgeOutcome(c, "targets", i, "info chord describe -t", res, map[string]any{"target": qs([]byte(t))}) {
+			c.Nontrivial("target|" + t + fmt.Sprint(i >= len(targets)))
+		}
+	})
+
 	// ---------------- (2) flag fuzz
 	flagFuzz(c)
 
